@@ -32,6 +32,8 @@ def gen_plan(seed, i, tier):
         while t in synth.BUILDER_ONLY:
             t = rng.choice(types)
         init = synth.synth_init(rng.choice(synth.VERSIONS), t, rng.below(1 << 20), k=2)
+    synth_init = 'synth' in init
+    safe = ['AddNode', 'AddExtraData', 'AddLooseBlock', 'SetNodeName', 'SetNodeTransform', 'PrettySort', 'Optimize', 'DeleteUnreferenced', 'ReplaceWithClone', 'TrimTexturePaths', 'FixBSXFlags', 'FixShaderFlags']
     steps = []
     for _ in range(rng.range(0, 8)):
         if rng.chance(0.2):
@@ -40,7 +42,7 @@ def gen_plan(seed, i, tier):
                 st['pipe'] = True    # the file goes to a stream that cannot seek (pipe, socket, compressor)
             steps.append(st)
         else:
-            steps.append(edits.edit_step(rng, 'quick', version_hint=ver))
+            steps.append(edits.edit_step(rng, 'quick', version_hint=ver, allow=safe if synth_init else None))
     return {'property': PROP, 'profile': 'writemon', 'run_index': i, 'init': init, 'steps': steps, 'final_raw': rng.chance(0.5), 'timeout_s': 60}
 
 
